@@ -70,33 +70,35 @@ CAbs2(x) == RAdd(RMul(x[1], x[1]), RMul(x[2], x[2]))
 CDiv(x, y) == LET d == CAbs2(y)  n == CMul(x, <<y[1], RNeg(y[2])>>) IN <<RDiv(n[1], d), RDiv(n[2], d)>>
 RECURSIVE CPow(_, _)
 CPow(x, n) == IF n = 0 THEN <<RQ(1), RQ(0)>> ELSE CMul(x, CPow(x, n - 1))
-NearC(wd, x) == Near(wd[1], x[1]) /\ Near(wd[2], x[2])
-ExactRule(e) ==
+\* double: a short dyadic result is compared exactly, anything else within 2^-13; float results are all short dyadics, so
+\* they are compared within 2^-13 throughout (exact rounding of inexact quotients is not claimed)
+NearC(wd, x, width) == IF width = 4 THEN NearTol(wd[1], x[1]) /\ NearTol(wd[2], x[2]) ELSE Near(wd[1], x[1]) /\ Near(wd[2], x[2])
+ExactRule(e, width) ==
   LET x == <<RVal(e.ad[1]), RVal(e.ad[2])>>  y == <<RVal(e.ad[3]), RVal(e.ad[4])>>  s == RVal(e.ad[3]) IN
-  CASE e.fn = "add" -> NearC(e.wd, CAdd(x, y))
-    [] e.fn = "sub" -> NearC(e.wd, CSub(x, y))
-    [] e.fn = "mul" -> NearC(e.wd, CMul(x, y))
-    [] e.fn = "div" -> NearC(e.wd, CDiv(x, y))
-    [] e.fn = "muldiv" -> NearC(e.wd, x)                              \* multiply then divide by the same number
-    [] e.fn = "mul_real" -> NearC(e.wd, <<RMul(x[1], s), RMul(x[2], s)>>)
-    [] e.fn = "div_real" -> NearC(e.wd, <<RDiv(x[1], s), RDiv(x[2], s)>>)
-    [] e.fn = "mul_imag" -> NearC(e.wd, <<RNeg(RMul(x[2], s)), RMul(x[1], s)>>)
-    [] e.fn = "div_imag" -> NearC(e.wd, <<RDiv(x[2], s), RNeg(RDiv(x[1], s))>>)
-    [] e.fn = "conj" -> NearC(e.wd, <<x[1], RNeg(x[2])>>)
-    [] e.fn = "neg" -> NearC(e.wd, <<RNeg(x[1]), RNeg(x[2])>>)
+  CASE e.fn = "add" -> NearC(e.wd, CAdd(x, y), width)
+    [] e.fn = "sub" -> NearC(e.wd, CSub(x, y), width)
+    [] e.fn = "mul" -> NearC(e.wd, CMul(x, y), width)
+    [] e.fn = "div" -> NearC(e.wd, CDiv(x, y), width)
+    [] e.fn = "muldiv" -> NearC(e.wd, x, width)                              \* multiply then divide by the same number
+    [] e.fn = "mul_real" -> NearC(e.wd, <<RMul(x[1], s), RMul(x[2], s)>>, width)
+    [] e.fn = "div_real" -> NearC(e.wd, <<RDiv(x[1], s), RDiv(x[2], s)>>, width)
+    [] e.fn = "mul_imag" -> NearC(e.wd, <<RNeg(RMul(x[2], s)), RMul(x[1], s)>>, width)
+    [] e.fn = "div_imag" -> NearC(e.wd, <<RDiv(x[2], s), RNeg(RDiv(x[1], s))>>, width)
+    [] e.fn = "conj" -> NearC(e.wd, <<x[1], RNeg(x[2])>>, width)
+    [] e.fn = "neg" -> NearC(e.wd, <<RNeg(x[1]), RNeg(x[2])>>, width)
     [] e.fn = "abs2_abs" -> Near(e.wd[1], CAbs2(x)) /\ RLe(RQ(0), RVal(e.wd[2]))
-    [] e.fn = "explog" -> NearC(e.wd, x)                              \* log(exp z) = z for |Im z| < pi
-    [] e.fn = "sqrtsq" -> NearC(e.wd, x)                              \* sqrt(z)^2 = z
-    [] e.fn = "pow_int" -> (IF s[1] >= 0 /\ s[1] <= 2 /\ RLe(CAbs2(x), RQ(18)) THEN NearC(e.wd, CPow(x, s[1])) ELSE TRUE)
-    [] e.fn = "pow_real2" -> (IF RLe(CAbs2(x), RQ(18)) THEN NearC(e.wd, CMul(x, x)) ELSE TRUE)
+    [] e.fn = "explog" -> NearC(e.wd, x, width)                              \* log(exp z) = z for |Im z| < pi
+    [] e.fn = "sqrtsq" -> NearC(e.wd, x, width)                              \* sqrt(z)^2 = z
+    [] e.fn = "pow_int" -> (IF s[1] >= 0 /\ s[1] <= 2 /\ RLe(CAbs2(x), RQ(18)) THEN NearC(e.wd, CPow(x, s[1]), width) ELSE TRUE)
+    [] e.fn = "pow_real2" -> (IF RLe(CAbs2(x), RQ(18)) THEN NearC(e.wd, CMul(x, x), width) ELSE TRUE)
     [] e.fn = "sqrt_exact" ->      \* principal root of (a + bi)^2 is +-(a + bi) with non-negative real part (positive imaginary part on the cut)
          LET a == y[1]  b == y[2]
              flip == RLt(a, RQ(0)) \/ (a[1] = 0 /\ RLt(b, RQ(0))) IN
-         NearC(e.wd, IF flip THEN <<RNeg(a), RNeg(b)>> ELSE <<a, b>>)
+         NearC(e.wd, IF flip THEN <<RNeg(a), RNeg(b)>> ELSE <<a, b>>, width)
     [] e.fn = "sqrt_real" -> (IF RLt(x[1], RQ(0)) THEN Near(e.wd[1], RQ(0)) /\ REq(RMul(RVal(e.wd[2]), RVal(e.wd[2])), RNeg(x[1])) /\ RLt(RQ(0), RVal(e.wd[2]))
                               ELSE Near(e.wd[2], RQ(0)) /\ REq(RMul(RVal(e.wd[1]), RVal(e.wd[1])), x[1]) /\ RLe(RQ(0), RVal(e.wd[1])))
     [] e.fn = "polar" -> LET rho == x[1]  q == x[2][1] IN
-         NearC(e.wd, CASE q = 0 -> <<rho, RQ(0)>> [] q = 1 -> <<RQ(0), rho>> [] q = 2 -> <<RNeg(rho), RQ(0)>> [] OTHER -> <<RQ(0), RNeg(rho)>>)
+         NearC(e.wd, CASE q = 0 -> <<rho, RQ(0)>> [] q = 1 -> <<RQ(0), rho>> [] q = 2 -> <<RNeg(rho), RQ(0)>> [] OTHER -> <<RQ(0), RNeg(rho)>>, width)
     [] e.fn = "arg_octant" -> Near(e.wd[1], RQ(y[1][1]))             \* arg in units of pi/4: the octant the argument lies in / on
     [] OTHER -> TRUE
 =============================================================================
